@@ -2,6 +2,7 @@ package api
 
 import (
 	"net/http"
+	"net/url"
 
 	"github.com/formancehq/stack/libs/go-libs/verifhook"
 )
@@ -21,16 +22,28 @@ func (r *zzRecorder) Header() http.Header {
 func (r *zzRecorder) Write(b []byte) (int, error) { r.body = append(r.body, b...); return len(b), nil }
 func (r *zzRecorder) WriteHeader(code int)         { r.status = code }
 
-func ZZ_C19N() int { return 9 }
+var zzC19Paths = []string{"/api/ledger/l1/transactions", "/api/ledger/v2/l1/transactions", "/api/ledger/v2/l1/_bulk", "/api/ledger/v2/l1/transactions/3/revert"}
+var zzC19Queries = []string{"", "preview=true", "dryRun=true", "preview=true&dryRun=true", "preview=false&dryRun=1"}
+
+func ZZ_C19N() int { return 9 * len(zzC19Paths) * len(zzC19Queries) }
+
+func ZZ_C19Desc(i int) string {
+	n := i % 9
+	pq := i / 9
+	return "method: arbitrary string of " + string(rune('0'+n)) + " bytes, path " + zzC19Paths[pq%len(zzC19Paths)] + ", query \"" + zzC19Queries[pq/len(zzC19Paths)] + "\""
+}
 
 // ZZ_C19: in read-only mode the wrapped handler is reached only for GET, HEAD, OPTIONS.
-// shape = length of the (arbitrary) method string.
+// shape encodes the length of the (arbitrary) method string, the path and the query.
 func ZZ_C19(shape int) {
-	m := verifhook.String("method", shape)
+	n := shape % 9
+	pq := shape / 9
+	u := &url.URL{Path: zzC19Paths[pq%len(zzC19Paths)], RawQuery: zzC19Queries[pq/len(zzC19Paths)]}
+	m := verifhook.String("method", n)
 	reached := false
 	h := ReadOnly(http.HandlerFunc(func(w http.ResponseWriter, r *http.Request) { reached = true }))
 	rec := &zzRecorder{}
-	h.ServeHTTP(rec, &http.Request{Method: m})
+	h.ServeHTTP(rec, &http.Request{Method: m, URL: u, Header: http.Header{}})
 	verifhook.Reach("served")
 	safe := verifhook.Or(verifhook.StrEq(m, "GET"), verifhook.Or(verifhook.StrEq(m, "HEAD"), verifhook.StrEq(m, "OPTIONS")))
 	if reached {
